@@ -8,4 +8,4 @@ D=$(mktemp -d ${TMPDIR:-/tmp}/cl-mut-XXXXXX)
 trap 'rm -rf "$D"' EXIT
 rsync -a --exclude .git /repo/ "$D/"
 (cd "$D" && patch -p1 -s < "$PATCH") || { echo "PATCH-DOES-NOT-APPLY $PATCH"; exit 3; }
-/verif/bin/clusterlint -repo "$D" -property "$PROP" -no-evidence -no-cache 2>&1 | grep -E "^(VIOLATION|VIOLATED|UNDECIDED|BROKEN|KNOWN-FINDING)" | sed "s#$D/##g" || echo "NO-DETECTION"
+${CLUSTERLINT_BIN:-/verif/bin/clusterlint} -repo "$D" -property "$PROP" -no-evidence -no-cache 2>&1 | grep -E "^(VIOLATION|VIOLATED|UNDECIDED|BROKEN|KNOWN-FINDING)" | sed "s#$D/##g" || echo "NO-DETECTION"
